@@ -74,6 +74,7 @@ type rig struct {
 	respawn           map[string]bool   // the recorder spawns a successor from its Stopped handler
 	lost              bool              // a marker event never reached the flush subscriber
 	sentUndeliverable bool              // the case has issued an undeliverable send already
+	dirty             bool              // an event has been put on the stream since the last marker round
 }
 
 func (r *rig) nameOf(p *actor.PID) string {
@@ -174,6 +175,7 @@ type recv func(*actor.Context)
 func (f recv) Receive(c *actor.Context) { f(c) }
 
 func (r *rig) quiesce(n *int, live map[string]bool, rounds int) bool {
+	r.dirty = false
 	for i := 0; i < rounds; i++ {
 		*n++
 		r.e.BroadcastEvent(marker{*n})
@@ -208,9 +210,9 @@ type fakeRemote struct {
 	r    *rig
 }
 
-func (f *fakeRemote) Address() string             { return f.addr }
-func (f *fakeRemote) Start(*actor.Engine) error   { return nil }
-func (f *fakeRemote) Stop() *sync.WaitGroup       { return &sync.WaitGroup{} }
+func (f *fakeRemote) Address() string           { return f.addr }
+func (f *fakeRemote) Start(*actor.Engine) error { return nil }
+func (f *fakeRemote) Stop() *sync.WaitGroup     { return &sync.WaitGroup{} }
 func (f *fakeRemote) Send(pid *actor.PID, msg any, sender *actor.PID) {
 	r := f.r
 	if pid == nil {
@@ -303,6 +305,7 @@ func runCase(c *Case) (seen map[string][]Ev, problem string) {
 				e.Unsubscribe(pid)
 			}
 		case "bcast":
+			r.dirty = true
 			ch, ok := bch[op.B]
 			if !ok {
 				ch = make(chan job)
@@ -339,10 +342,19 @@ func runCase(c *Case) (seen map[string][]Ev, problem string) {
 			case <-time.After(5 * time.Second):
 				return r.snapshot(), "harness: subscriber does not stop"
 			}
+		case "revive0":
+			// the id is spawned again, nobody subscribes.  What was broadcast before has to have been through the stream by
+			// then; a marker round is an event of its own, though (the stream looks at its subscribers while handling
+			// it), so there is one only if something was put on the stream since the last round
+			if r.dirty && !r.quiesce(&nmark, live, 1) {
+				return r.snapshot(), r.quiesceProblem()
+			}
+			e.Spawn(r.recorder(op.P), "sub", actor.WithID(op.P))
+			live[op.P] = true
 		case "revive":
 			// the id of a subscriber that stopped earlier is spawned again and the new actor subscribes (what was
 			// broadcast before has been through the stream by then)
-			if !r.quiesce(&nmark, live, 1) {
+			if r.dirty && !r.quiesce(&nmark, live, 1) {
 				return r.snapshot(), r.quiesceProblem()
 			}
 			np := e.Spawn(r.recorder(op.P), "sub", actor.WithID(op.P))
@@ -363,6 +375,7 @@ func runCase(c *Case) (seen map[string][]Ev, problem string) {
 				sender = snd
 			}
 			r.sentUndeliverable = true
+			r.dirty = true
 			var payload any = testMsg{op.ID}
 			if op.B == "nil" {
 				payload = nil // the untyped nil is a message value like any other
